@@ -7,6 +7,7 @@ import (
 	"os"
 	"os/exec"
 	"regexp"
+	"sort"
 	"strings"
 	"sync"
 	"time"
@@ -24,17 +25,22 @@ func solverConfigs(timeoutS int, seed int) []SolverCfg {
 		{"cvc5-1.0", []string{"cvc5", "--lang=smt2", "--tlimit=" + ms, fmt.Sprintf("--seed=%d", seed), "--produce-models"}},
 		{"cvc5-1.0-enum", []string{"cvc5", "--lang=smt2", "--tlimit=" + ms, fmt.Sprintf("--seed=%d", seed), "--produce-models", "--enum-inst"}},
 		{"z3-4.8", []string{"z3", "-in", "-smt2", "-t:" + ms, fmt.Sprintf("smt.random_seed=%d", seed)}},
-		{"cvc5-1.0-intblast", []string{"cvc5", "--lang=smt2", "--tlimit=" + ms, fmt.Sprintf("--seed=%d", seed), "--produce-models", "--solve-bv-as-int=sum"}},
+		{"cvc5-1.0-intblast", []string{"cvc5", "--lang=smt2", "--tlimit=" + ms, fmt.Sprintf("--seed=%d", seed), "--solve-bv-as-int=sum"}},
+		// without --produce-models cvc5 keeps preprocessing passes that decide many quantified goals in
+		// about a second which the model-producing configuration does not decide at all
+		{"cvc5-1.0-nomodel", []string{"cvc5", "--lang=smt2", "--tlimit=" + ms, fmt.Sprintf("--seed=%d", seed)}},
+		{"cvc5-1.0-enum-nomodel", []string{"cvc5", "--lang=smt2", "--tlimit=" + ms, fmt.Sprintf("--seed=%d", seed), "--enum-inst"}},
 	}
 }
 
 type SolveResult struct {
-	Status  string // unsat | sat | unknown | timeout | error
-	Solver  string
-	Ms      int64
-	Output  string
-	Model   map[string]string
-	Tried   []string
+	Status    string // unsat | sat | unknown | timeout | error
+	Solver    string
+	Ms        int64
+	Output    string
+	Model     map[string]string
+	Tried     []string
+	Candidate bool // Model comes from the quantifier-free approximation (status stays unknown/timeout)
 }
 
 func runSolver(cfg SolverCfg, script string, hardTimeout time.Duration) (status string, out string, ms int64) {
@@ -101,7 +107,7 @@ func Solve(script string, quantified bool, timeoutS int, seed int, all bool) *So
 	cfgs := solverConfigs(timeoutS, seed)
 	if quantified {
 		all := cfgs
-		cfgs = []SolverCfg{all[1], all[2], all[0]} // cvc5, cvc5 --enum-inst, z3 5.1
+		cfgs = []SolverCfg{all[5], all[1], all[6], all[0]} // cvc5 (no models), cvc5, cvc5 --enum-inst (no models), z3 5.1
 		if strings.Contains(script, "(bvmul ") || strings.Contains(script, "(bvsdiv ") || strings.Contains(script, "(bvsrem ") || strings.Contains(script, "(bvudiv ") || strings.Contains(script, "(bvurem ") {
 			cfgs = append(cfgs, all[4]) // nonlinear bit-vector arithmetic: int-blasting
 		}
@@ -122,9 +128,18 @@ func Solve(script string, quantified bool, timeoutS int, seed int, all bool) *So
 			ch <- r{cfg, st, out, ms}
 		}(cfg)
 	}
+	satNoModel := false
 	for range cfgs {
 		x := <-ch
 		res.Tried = append(res.Tried, fmt.Sprintf("%s:%s:%dms", x.cfg.Name, x.st, x.ms))
+		if x.st == "sat" && !strings.Contains(strings.Join(x.cfg.Cmd, " "), "--produce-models") && x.cfg.Cmd[0] == "cvc5" {
+			// a model-less "sat": keep waiting for a solver that can print a model
+			satNoModel = true
+			if x.ms > total {
+				total = x.ms
+			}
+			continue
+		}
 		if x.st == "sat" || x.st == "unsat" {
 			res.Status, res.Solver, res.Ms, res.Output = x.st, x.cfg.Name, total+x.ms, x.out
 			if x.st == "sat" {
@@ -145,7 +160,31 @@ func Solve(script string, quantified bool, timeoutS int, seed int, all bool) *So
 		}
 	}
 	res.Ms = total
+	if satNoModel {
+		res.Status = "sat"
+		res.Solver = "cvc5-1.0-nomodel"
+	}
 	return res
+}
+
+// candidateModel: when no solver produced a model for a failing quantified obligation, ask for a
+// model of its quantifier-free approximation (quantified assumptions and axioms dropped). Such a
+// model is only a candidate input: it counts for nothing unless the replay on the real code confirms it.
+func candidateModel(d *Discharged) {
+	if (d.Res.Status == "sat" && len(d.Res.Model) > 0) || d.Res.Status == "unsat" || d.Obl == nil || d.Obl.ex == nil {
+		return
+	}
+	o2 := *d.Obl
+	o2.Approx = true
+	script, _, _ := o2.Script("", nil)
+	st, out, _ := runSolver(solverConfigs(15, 0)[0], script, 20*time.Second)
+	if st != "sat" {
+		return
+	}
+	d.Res.Model = parseModel(out)
+	d.Res.Candidate = true
+	d.Res.Output += "[candidate model from the quantifier-free approximation of the obligation; confirmed only by replay]\n"
+	d.Obl = &o2
 }
 
 func firstLines(s string, n int) string {
@@ -196,8 +235,28 @@ func hasQuant(ts []*Term) bool {
 
 // ufAxioms: axioms about uninterpreted functions standing for trusted libraries,
 // added when the functions occur in a script.
-func ufAxioms(s *Script) []string {
+func ufAxioms(s *Script, foreign [][2]int64) []string {
 	var out []string
+	own := "(> (rg a) 0)"
+	if len(foreign) > 0 {
+		// merge overlapping / adjacent ranges
+		sort.Slice(foreign, func(i, j int) bool { return foreign[i][0] < foreign[j][0] })
+		var m [][2]int64
+		for _, r := range foreign {
+			if len(m) > 0 && r[0] <= m[len(m)-1][1] {
+				if r[1] > m[len(m)-1][1] {
+					m[len(m)-1][1] = r[1]
+				}
+				continue
+			}
+			m = append(m, r)
+		}
+		parts := []string{own}
+		for _, r := range m {
+			parts = append(parts, fmt.Sprintf("(not (and (> (rg a) %d) (<= (rg a) %d)))", r[0], r[1]))
+		}
+		own = "(and " + strings.Join(parts, " ") + ")"
+	}
 	// freshly allocated memory is zero: reads of the initial arrays at regions allocated
 	// during the execution (region id > 0) give the zero value
 	otherArrays := false
@@ -217,7 +276,7 @@ func ufAxioms(s *Script) []string {
 		if z == nil {
 			continue
 		}
-		out = append(out, fmt.Sprintf("(forall ((a Addr)) (! (=> (> (rg a) 0) (= (select %s a) %s)) :pattern ((select %s a))))", name, constSMTAny(z), name))
+		out = append(out, fmt.Sprintf("(forall ((a Addr)) (! (=> %s (= (select %s a) %s)) :pattern ((select %s a))))", own, name, constSMTAny(z), name))
 	}
 	_, e := s.ufs["aes_enc"]
 	_, d := s.ufs["aes_dec"]
@@ -244,8 +303,14 @@ func (o *Obligation) Script(specText string, predeclared map[string]bool) (strin
 	for _, a := range assumes {
 		asserts = append(asserts, s.Ref(a))
 	}
-	asserts = append(asserts, s.Ref(Not(o.Goal)))
-	asserts = append(asserts, ufAxioms(s)...)
+	g, extra := prepareGoal(assumes, o.Goal)
+	for _, x := range extra {
+		asserts = append(asserts, s.Ref(x))
+	}
+	asserts = append(asserts, s.Ref(Not(g)))
+	if !o.Approx {
+		asserts = append(asserts, ufAxioms(s, append([][2]int64{}, o.Foreign...))...)
+	}
 	// values to query: scalar variables
 	var names []string
 	for n := range s.declSet {
@@ -274,22 +339,58 @@ type Discharged struct {
 	Res *SolveResult
 }
 
+// quickSolve: one solver, short timeout (cone attempts)
+func quickSolve(script string, quantified bool, seconds int, seed int) *SolveResult {
+	cfgs := solverConfigs(seconds, seed)
+	cfg := cfgs[0]
+	if quantified {
+		cfg = cfgs[5]
+	}
+	sc := script
+	if strings.HasPrefix(cfg.Name, "cvc5") {
+		sc = "(set-logic ALL)\n" + script
+	}
+	st, out, ms := runSolver(cfg, sc, time.Duration(seconds+2)*time.Second)
+	return &SolveResult{Status: st, Solver: cfg.Name + "+cone", Ms: ms, Output: out, Tried: []string{fmt.Sprintf("%s+cone:%s:%dms", cfg.Name, st, ms)}}
+}
+
+func coneCopies(os_ []*Obligation) ([]*Obligation, bool) {
+	var out []*Obligation
+	dropped := false
+	for _, o := range os_ {
+		o2 := *o
+		o2.Cone = true
+		if len(relevantAssumes(&o2)) < len(relevantAssumes(o)) {
+			dropped = true
+		}
+		out = append(out, &o2)
+	}
+	return out, dropped
+}
+
 func batchScript(os_ []*Obligation) (string, bool) {
 	s := NewScript()
 	var insts []string
 	var all []*Term
+	var foreign [][2]int64 // union over the batch: a weaker (still sound) zero-memory axiom
 	for _, o := range os_ {
+		foreign = append(foreign, o.Foreign...)
 		var parts []string
-		for _, a := range relevantAssumes(o) {
+		ras := relevantAssumes(o)
+		for _, a := range ras {
 			parts = append(parts, s.Ref(a))
 			all = append(all, a)
 		}
-		parts = append(parts, s.Ref(Not(o.Goal)))
+		g, extra := prepareGoal(ras, o.Goal)
+		for _, x := range extra {
+			parts = append(parts, s.Ref(x))
+		}
+		parts = append(parts, s.Ref(Not(g)))
 		all = append(all, o.Goal)
 		insts = append(insts, "(and "+strings.Join(parts, " ")+")")
 	}
 	asserts := []string{"(or " + strings.Join(insts, " ") + " false)"}
-	asserts = append(asserts, ufAxioms(s)...)
+	asserts = append(asserts, ufAxioms(s, foreign)...)
 	return s.Render("", "", nil, asserts, "(check-sat)\n"), hasQuant(all)
 }
 
@@ -340,6 +441,13 @@ func DischargeAll(obls []*Obligation, timeoutS, seed, workers int, dumpDir strin
 			out[i] = &Discharged{o, &SolveResult{Status: "toolimit", Output: "VC larger than 4 MB"}}
 			return
 		}
+		if cs, dropped := coneCopies([]*Obligation{o}); dropped {
+			cscript, cq, _ := cs[0].Script("", nil)
+			if r := quickSolve(cscript, cq, 3, seed); r.Status == "unsat" {
+				out[i] = &Discharged{o, r}
+				return
+			}
+		}
 		out[i] = &Discharged{o, Solve(script, q, timeoutS, seed, false)}
 	}
 	deadline := time.Now().Add(time.Duration(envInt("GOV_SOLVE_SECONDS", 900)) * time.Second)
@@ -358,6 +466,18 @@ func DischargeAll(obls []*Obligation, timeoutS, seed, workers int, dumpDir strin
 		var os_ []*Obligation
 		for _, i := range idx {
 			os_ = append(os_, obls[i])
+		}
+		if cs, dropped := coneCopies(os_); dropped {
+			cscript, cq := batchScript(cs)
+			if len(cscript) <= 4<<20 {
+				if r := quickSolve(cscript, cq, 3, seed); r.Status == "unsat" {
+					share := r.Ms / int64(len(idx))
+					for _, i := range idx {
+						out[i] = &Discharged{obls[i], &SolveResult{Status: "unsat", Solver: r.Solver, Ms: share, Tried: r.Tried}}
+					}
+					return
+				}
+			}
 		}
 		script, q := batchScript(os_)
 		if len(script) <= 4<<20 {
@@ -407,8 +527,27 @@ func (p *PruneSolver) Feasible(assumes []*Term) bool {
 		asserts = append(asserts, s.Ref(a))
 	}
 	script := s.Render("", "", nil, asserts, "(check-sat)\n")
-	st, _, _ := runSolver(solverConfigs(2, 0)[0], script, 4*time.Second)
-	return st != "unsat"
+	cfgs := solverConfigs(1, 0)
+	// race z3 with cvc5's int-blasting (arithmetic with multiplications / divisions by constants)
+	type r struct{ st string }
+	ch := make(chan r, 2)
+	ctx, cancel := context.WithCancel(context.Background())
+	defer cancel()
+	go func() { st, _, _ := runSolverCtx(ctx, cfgs[0], script, 2*time.Second); ch <- r{st} }()
+	go func() {
+		st, _, _ := runSolverCtx(ctx, cfgs[4], "(set-logic ALL)\n"+script, 2*time.Second)
+		ch <- r{st}
+	}()
+	for i := 0; i < 2; i++ {
+		x := <-ch
+		if x.st == "unsat" {
+			return false
+		}
+		if x.st == "sat" {
+			return true
+		}
+	}
+	return true
 }
 
 func constSMTAny(t *Term) string {
